@@ -875,6 +875,18 @@ async fn resolve_delegation(
         {
             return Ok(None);
         }
+        // A suspended or revoked Principal keeps its record and loses its
+        // authority (see `resolve_at_depth`) - including the authority to pass
+        // one on. The root of a chain is checked when its delegator is
+        // resolved; every re-delegator in between is checked here.
+        let redelegator_live = store
+            .governance
+            .find_principal(&delegation.delegator_principal)
+            .await?
+            .is_some_and(|principal| principal.status == status::ACTIVE);
+        if !redelegator_live {
+            return Ok(None);
+        }
         let Some(inherited) =
             Box::pin(resolve_delegation(store, space_id, &linked, depth + 1)).await?
         else {
